@@ -145,7 +145,9 @@ class HPath(Path):
 
 
 class LoopSpec:
-    def __init__(s, inv, elem=None, facts=None, havoc_heap=None, name=None, modifies=None, ghost=None):
+    def __init__(s, inv, elem=None, facts=None, havoc_heap=None, name=None, modifies=None, ghost=None, inst=None):
+        s.inst = inst                # (ex, path, k, seq) -> [z3 Bool]: further instances of a universally quantified invariant (whose goal
+                                     # is proved for a skolem index); used ONLY where the invariant is assumed (loop head, loop exit)
         s.ghost = ghost              # (ex, path, k, seq) -> [z3 Bool]: ghost assignments at the end of iteration k (definitions of
                                      # history functions at index k / k+1 only; the invariant at k may mention them below that only)
         s.modifies = modifies        # heap field keys the loop may change; every other havocked field is framed automatically
@@ -285,6 +287,8 @@ class HeapExec(NumExec):
             return p.env[e.id]
         if e.id in ("True", "False", "None"):
             return {"True": True, "False": False, "None": None}[e.id]
+        if e.id in ("float", "int", "bool", "str"):
+            return ("builtin", e.id)
         return super().ev_Name(p, e)
 
     def ev_Constant(s, p, e):
@@ -571,7 +575,10 @@ class HeapExec(NumExec):
         fn = s.src.func(m, f"{owner}.{meth}", which)
         if s.depth > 6:
             raise Unsupported("inline depth")
-        sub = HeapExec(s.src, m, s.schema, s.ax, s.contracts, s.interfaces, s.inline, {}, fnname=f"{owner}.{meth}")
+        sub = type(s)(s.src, m, s.schema, s.ax, s.contracts, s.interfaces, s.inline, {}, fnname=f"{owner}.{meth}")
+        for k_, v_ in s.__dict__.items():          # extension state of executor subclasses is shared with inlined callees
+            if k_ not in sub.__dict__:
+                sub.__dict__[k_] = v_
         sub.depth = s.depth + 1
         sub.fn_line = fn.lineno
         sub.cur_owner = owner
@@ -695,11 +702,16 @@ class HeapExec(NumExec):
             return s.for_loop(p, n)
         if isinstance(n, ast.While):
             return s.while_loop(p, n)
+        if isinstance(n, ast.With):
+            return s.with_stmt(p, n)
         if isinstance(n, ast.Continue):
             return [(p, ("continue", None))]
         if isinstance(n, ast.Break):
             return [(p, ("break", None))]
         return super().stmt(p, n)
+
+    def with_stmt(s, p, n):
+        raise Unsupported(f"with statement at line {n.lineno}")
 
     def kind_of(s, v):
         if isinstance(v, RefV):
@@ -752,11 +764,16 @@ class HeapExec(NumExec):
         if isinstance(t, ast.Name):
             p.env[t.id] = v
             return
+        if isinstance(t, ast.Subscript):
+            return s.subscript_store(p, t, v)
         if isinstance(t, ast.Tuple) and isinstance(v, (tuple, list)) and len(v) == len(t.elts):
             for ti, vi in zip(t.elts, v):
                 s.assign(p, ti, vi)
             return
         raise Unsupported(f"assignment target {ast.unparse(t)} at line {t.lineno}")
+
+    def subscript_store(s, p, t, v):
+        raise Unsupported(f"subscript store {ast.unparse(t)} at line {t.lineno}")
 
     def resolve_store(s, cls, attr):
         for c in s.src.mro(cls):
@@ -876,9 +893,13 @@ class HeapExec(NumExec):
         enum = False
         if isinstance(n.iter, ast.Call) and isinstance(n.iter.func, ast.Name) and n.iter.func.id == "enumerate":
             it = s.ev(p, n.iter.args[0]); enum = True
-        if not isinstance(it, SeqV):
+        custom = hasattr(it, "iter_length")          # iterable protocol of value extensions (e.g. np.nditer over a batch)
+        if not isinstance(it, SeqV) and not custom:
             raise Unsupported(f"for over {type(it).__name__} at line {n.lineno}")
-        seq, L = it.q, z3.Length(it.q)
+        if custom:
+            seq, L = it, it.iter_length()
+        else:
+            seq, L = it.q, z3.Length(it.q)
         names = s.assigned_names(n.body) | s.assigned_names([ast.Expr(n.target)])
         for x in ast.walk(n.target):
             if isinstance(x, ast.Name):
@@ -889,7 +910,7 @@ class HeapExec(NumExec):
         if spec.modifies is not None:
             user_inv, ent, framed = spec.inv, s.entry[lo], sorted(fields - set(spec.modifies))
             spec = LoopSpec(lambda ex, q, k_, sq: z3.And(user_inv(ex, q, k_, sq), *[q.heap[f] == ent.heap[f] for f in framed]),
-                            facts=spec.facts, havoc_heap=spec.havoc_heap, name=spec.name, ghost=spec.ghost)
+                            facts=spec.facts, havoc_heap=spec.havoc_heap, name=spec.name, ghost=spec.ghost, inst=spec.inst)
         k0 = z3.IntVal(0)
         s.oblige(f"{label}/inv.init", p, z3.And(*((spec.facts(s, p, k0, seq) if spec.facts else []) + [True])) if False else spec.inv(s, p, k0, seq),
                  {"facts": spec.facts(s, p, k0, seq) if spec.facts else []})
@@ -897,11 +918,16 @@ class HeapExec(NumExec):
         k = z3.FreshInt(f"k{lo}")
         h = p.fork()
         s.havoc(h, [x for x in names if x in h.env], fields, f"L{lo}")
-        h.pc += [k >= 0, k < L, spec.inv(s, h, k, seq)] + (spec.facts(s, h, k, seq) if spec.facts else [])
-        idx = (L - 1 - k) if it.rev else k
-        elem = s.wrap(it.kind, seq[idx])
+        h.pc += [k >= 0, k < L, spec.inv(s, h, k, seq)] + (spec.facts(s, h, k, seq) if spec.facts else []) + (spec.inst(s, h, k, seq) if spec.inst else [])
+        if custom:
+            elem = it.iter_elem(s, h, k)
+        else:
+            idx = (L - 1 - k) if it.rev else k
+            elem = s.wrap(it.kind, seq[idx])
         if enum:
             s.assign(h, n.target, (Num(X(xr.F, xr.I0, z3.ToReal(k)), False, True, True), elem))
+        elif custom and isinstance(n.target, ast.Name):
+            h.env[n.target.id] = elem            # a view object of the extension (kept as is)
         else:
             s.assign(h, n.target, elem)
         outs, breaks = [], []
@@ -917,7 +943,7 @@ class HeapExec(NumExec):
         # after the loop
         a = p.fork()
         s.havoc(a, [x for x in names if x in a.env], fields, f"L{lo}x")
-        a.pc += [spec.inv(s, a, L, seq)] + (spec.facts(s, a, L, seq) if spec.facts else [])
+        a.pc += [spec.inv(s, a, L, seq)] + (spec.facts(s, a, L, seq) if spec.facts else []) + (spec.inst(s, a, L, seq) if spec.inst else [])
         if n.orelse:
             raise Unsupported("for-else")
         return [(a, None)] + breaks + outs
